@@ -239,11 +239,27 @@ func c19ParseEncode(c *kit.Ctx, m *c19Model, f *kit.Func) *frameEnc {
 				return true
 			}
 			if bi, ok := kit.Callee(info, call).(*types.Builtin); ok && bi.Name() == "copy" && len(call.Args) == 2 {
-				if se, ok := ast.Unparen(call.Args[0]).(*ast.SliceExpr); ok && isBuf(se.X) && se.High == nil && isPduField(call.Args[1], m.DataField) {
-					if se.Low == nil {
-						fe.data = 0
-					} else if k, isC := kit.ConstInt(info, se.Low); isC {
-						fe.data = k
+				if se, ok := ast.Unparen(call.Args[0]).(*ast.SliceExpr); ok && isBuf(se.X) && isPduField(call.Args[1], m.DataField) {
+					lo := int64(0)
+					okLo := true
+					if se.Low != nil {
+						lo, okLo = kit.ConstInt(info, se.Low)
+					}
+					okHi := se.High == nil
+					if se.High != nil {
+						// dst[lo:hi] with hi-lo == len(data) holds exactly the data
+						if fs, _ := b.FactsBefore(y); fs != nil {
+							env := b.EnvAt(fs, nil)
+							if ht, dt := b.Term(se.High), b.Term(call.Args[1]); ht != nil && dt != nil {
+								d := env.LinOf(ht).Sub(env.LinOf(kit.LenTerm(dt)))
+								if v, isC := d.IsConst(); isC && v == lo {
+									okHi = true
+								}
+							}
+						}
+					}
+					if okLo && okHi {
+						fe.data = lo
 					}
 				}
 				return true
@@ -254,7 +270,21 @@ func c19ParseEncode(c *kit.Ctx, m *c19Model, f *kit.Func) *frameEnc {
 					return true
 				}
 				low := se.Low
-				if fld := recvField(f, call.Args[1]); fld != nil {
+				val := ast.Unparen(mbResolve(f, call.Args[1]))
+				if vc, isCall := val.(*ast.CallExpr); isCall && len(vc.Args) == 1 && low != nil {
+					// PutUint16(buf[len-t:], C(buf[:len-t]))
+					if fn, ok := kit.Callee(info, vc).(*types.Func); ok && fn.Pkg() == m.pkg && mbIsChecksumSig(fn) {
+						if sp, ok := ast.Unparen(mbResolve(f, vc.Args[0])).(*ast.SliceExpr); ok && isBuf(sp.X) && sp.Low == nil && sp.High != nil {
+							t1, fromEnd1, ok1 := mbOffset(b, f, sp.X, sp.High, y)
+							t2, fromEnd2, ok2 := mbOffset(b, f, se.X, low, y)
+							if ok1 && ok2 && fromEnd1 && fromEnd2 {
+								fe.crcFn, fe.crcSpanT, fe.crcAt, fe.crcOrder = fn, t1, t2, order
+							}
+						}
+						return true
+					}
+				}
+				if fld := recvField(f, val); fld != nil {
 					k := int64(0)
 					if low != nil {
 						v, isC := kit.ConstInt(info, low)
@@ -594,7 +624,7 @@ func c19ParseDecode(c *kit.Ctx, m *c19Model, f *kit.Func) *frameDec {
 			if !ok || len(call.Args) != 1 {
 				return true
 			}
-			se, ok := ast.Unparen(call.Args[0]).(*ast.SliceExpr)
+			se, ok := ast.Unparen(mbResolve(k, call.Args[0])).(*ast.SliceExpr)
 			if !ok {
 				return true
 			}
